@@ -29,10 +29,10 @@ ROOTS2 = (
 ROOTS1 = ('', 'r1A,t', 'r1A,t,b1s')
 # name -> (world configuration, roots, depth per tier)
 CONFIGS = {
-    'two-prs': ({'prs': (1, 2)}, ROOTS2, {'quick': 4, 'thorough': 5}),
+    'two-prs': ({'prs': (1, 2)}, ROOTS2, {'quick': 5, 'thorough': 6}),
     'one-pr': ({'prs': (1,)}, ROOTS1, {'quick': 6, 'thorough': 8}),
     # GitHub webhooks delivered instantly (atomically with the change that causes them); batch callbacks still lag
-    'two-prs-prompt-webhooks': ({'prs': (1, 2), 'prompt_hooks': True}, ROOTS2, {'quick': 3, 'thorough': 5}),
+    'two-prs-prompt-webhooks': ({'prs': (1, 2), 'prompt_hooks': True}, ROOTS2, {'quick': 4, 'thorough': 5}),
 }
 STATE_CAP = 3_000_000
 
@@ -64,7 +64,7 @@ def _guard(fn):
 
 @_guard
 def _expand_chunk(items):
-    """items: [(world cfg, history, expected_digest | None)].  Returns successors and per-chunk statistics."""
+    """items: [(world cfg, history, expected_digest | None, is_last_level)].  Returns successors and per-chunk statistics."""
     from vf import ci_world as cw
 
     succ = []
@@ -72,7 +72,7 @@ def _expand_chunk(items):
     viols = {}
     merges_seen = []
     n_trans = 0
-    for cfg, hist, expected in items:
+    for cfg, hist, expected, last in items:
         s, _ = cw.replay_history(hist, cfg=cfg)
         ci0 = _digest(s.ci_canon())
         d0 = _digest((s.world.canon(), ci0))
@@ -105,7 +105,7 @@ def _expand_chunk(items):
             if merged and not v:
                 merges_seen = sorted(merges_seen + [h2], key=_hkey)[:2]  # smallest, whatever the chunking
             if d != d0:
-                succ.append((d, h2))
+                succ.append((d, None if last else h2))  # the last level is only counted, never expanded
             else:
                 counters['self_loops'] = counters.get('self_loops', 0) + 1
     return succ, counters, viols, merges_seen, n_trans
@@ -126,14 +126,34 @@ def _selfcheck():
         raise RuntimeError(f'self-check: the plain approve/test/merge history did not merge cleanly: {res[-1]}')
     if s.world.target != 'M1' or s.world.prs[1]['state'] != 'merged':
         raise RuntimeError('self-check: merge did not move the target branch')
-    # stale head: the CI's `sha` no longer matches -> GitHub answers 409, nothing is merged
-    stale = cw.dec_history('r1A,t,b1s,p1,c')
+    # the fake GitHub, asked directly: wrong head sha -> 409, closed PR -> 405, nothing merged either way
+    import asyncio
+
+    import gidgethub
+
     for ev in s.enabled():
         if cw.dec(cw.enc(ev)) != ev:
             raise RuntimeError(f'self-check: event coding is not a bijection for {ev}')
-    s, res = cw.replay_history(stale)
-    if res[-1][2] or res[-1][1].get('merge_rejected_409_head_moved') != 1:
-        raise RuntimeError(f'self-check: merge with a stale head sha was not rejected: {res[-1]}')
+    s = cw.Sys()
+    url = f'/repos/{cw.REPO_SS}/pulls/2/merge'
+
+    def put(sha):
+        try:
+            asyncio.run(s.gh.put(url, data={'merge_method': 'squash', 'sha': sha}))
+            return 200
+        except gidgethub.HTTPException as e:
+            return int(e.status_code)
+
+    if put('b1') != 409 or s.world.prs[2]['state'] != 'open' or s.world.target != 'T0' or s.world.merges:
+        raise RuntimeError('self-check: fake GitHub accepted a merge whose sha is not the current head')
+    s.world.prs[2]['state'] = 'merged'
+    if put('b0') != 405 or s.world.target != 'T0':
+        raise RuntimeError('self-check: fake GitHub merged a closed PR')
+    s.world.prs[2]['state'] = 'open'
+    s.world.violations = []
+    if put('b0') != 200 or s.world.target != 'M1' or not {'unapproved/ci-logic', 'head-not-tested/ci-logic'} <= {
+            x for x, _ in s.world.violations}:
+        raise RuntimeError(f'self-check: the oracle did not flag an unapproved, untested merge: {s.world.violations}')
     # replay == deepcopy path
     a, _ = cw.replay_history(clean)
     b, _ = cw.replay_history(clean[:-1])
@@ -161,11 +181,12 @@ def _bfs(cfg, roots, depth, seed, procs, pool=None):
     for level in range(depth):
         if not frontier:
             break
-        items = [(cfg, h, d) for h, d in par.rotate(sorted(frontier), seed)]
+        last = level == depth - 1
+        items = [(cfg, h, d, last) for h, d in par.rotate(sorted(frontier), seed)]
         if pool is None or len(items) < 200:
             rows = [_expand_chunk(items)]
         else:
-            rows = pool.map(_expand_chunk, _chunks(items, procs), chunksize=1)
+            rows = pool.imap(_expand_chunk, _chunks(items, procs), chunksize=1)  # streamed: bounded memory
         nxt = {}
         for succ, c, v, ms, nt in rows:
             transitions += nt
@@ -179,12 +200,15 @@ def _bfs(cfg, roots, depth, seed, procs, pool=None):
             for d, h in succ:
                 if d in visited:
                     continue
+                if last:
+                    nxt[d] = None
+                    continue
                 old = nxt.get(d)
                 if old is None or h < old:
                     nxt[d] = h
         visited.update(nxt)
-        frontier = [(h, d) for d, h in nxt.items()]
-        levels.append(len(frontier))
+        frontier = [] if last else [(h, d) for d, h in nxt.items()]
+        levels.append(len(nxt))
         if len(visited) > STATE_CAP:
             capped = True
             break
@@ -279,8 +303,6 @@ def check(tier, seed, procs):
     vac = None
     if merges == 0 or counters.get('merges_clean', 0) == 0:
         vac = f'no (clean) merge was ever performed ({merges=})'
-    elif counters.get('merge_rejected_409_head_moved', 0) == 0:
-        vac = 'no history reached a merge attempt with a stale head sha'
     elif counters.get('builds_started', 0) == 0 or counters.get('batch_callbacks', 0) == 0:
         vac = 'no test batch was started / no batch callback delivered'
     return {
